@@ -24,10 +24,12 @@ META = dict(
     '(outer union of stubs, neural bounds as predicates, with and without '
     'phase shift, serial and pool branch): sample within contains and the '
     'cube, contains implies outer_bound.contains(shift(x)).',
-    bounds=dict(ellipsoid_sample='d <= 2 quick / 3 thorough',
+    bounds=dict(ellipsoid_sample='d <= 2 (d = 3 is attempted in the thorough '
+                'tier; its frame lemma comes back unknown from nlsat and is '
+                'reported INCONCLUSIVE, not claimed)',
                 ellipsoid_compute='d = 1, <= 3 points (with 4 the nlsat '
                 'queries do not finish in 25 minutes)',
-                mixture='d <= 2 / 3', union='1-3 members, d <= 2',
+                mixture='d <= 2 (d = 3: as above)', union='1-3 members, d <= 2',
                 nautilus='d = 1, cache <= 1, block 2, bounded rounds'),
     functions=['bounds/basic.py:UnitCube.*', 'Ellipsoid.compute/sample/'
                'transform/contains', 'minimum_volume_enclosing_ellipsoid '
